@@ -187,7 +187,20 @@ def rule_k1(ctx, rule_id: str = "C12-K1") -> None:
                                     gp = getattr(top, "_parent", None)
                                     if isinstance(gp, ast.Call) and getattr(gp.func, "id", "") == "getattr" and gp.args and gp.args[0] is top:
                                         top = gp  # getattr(self.stage, "name", default)
-                                    if top is not y:
+                                    gp2 = getattr(top, "_parent", None)
+                                    if top is not y and isinstance(top, ast.Attribute) and isinstance(gp2, ast.Call) and gp2.func is top:
+                                        # a method of the stage object (`self.mcs_search.timeout_config()`): what that
+                                        # method reads from its object is what can end up in the key
+                                        tg = ctx.res.resolve_callee(gp2, m)
+                                        g_ = prog.functions.get(tg[1]) if tg and tg[0] == "func" else None
+                                        if g_ is not None and g_.params:
+                                            for z in own_nodes(g_.node):
+                                                if isinstance(z, ast.Attribute) and isinstance(z.value, ast.Name) and z.value.id == g_.params[0] and isinstance(z.ctx, ast.Load):
+                                                    probe = ast.Attribute(value=top.value, attr=z.attr, ctx=ast.Load())
+                                                    for val in ctx.ev.eval(probe, henv):
+                                                        if val.kind == "sym" and isinstance(val.value, str):
+                                                            stage_hashed.add(val.value.split(".", 1)[-1])
+                                    elif top is not y:
                                         for val in ctx.ev.eval(top, henv):
                                             if val.kind == "sym" and isinstance(val.value, str):
                                                 stage_hashed.add(val.value.split(".", 1)[-1])
@@ -350,10 +363,10 @@ def rule_k2(ctx) -> None:
         )
 
 
-def rule_k3(ctx) -> None:
+def rule_k3(ctx, rule_id: str = "C12-K3") -> None:
     """What is stored must be what an uncached run would have produced for *any* later caller: the statistics written
     next to the rows are the dictionary the pipeline filled - unconditionally, not only when this caller asked for them."""
-    ctx.rule("C12-K3", "the stats stored in a cache entry are the dictionary handed to __run_pipeline, on every path", 1)
+    ctx.rule(rule_id, "the stats stored in a cache entry are the dictionary handed to __run_pipeline, on every path", 1)
     prog = ctx.prog
     rb = prog.func(BAL + ".__rebalance_batch")
     runs = [c for c in calls(rb) if (ctx.res.resolve_callee(c, rb) or (None, ""))[1] == BAL + ".__run_pipeline"]
@@ -374,9 +387,9 @@ def rule_k3(ctx) -> None:
         for r in runs:
             arg = r.args[1] if len(r.args) >= 2 else next((k.value for k in r.keywords if k.arg == (runf.params[2] if len(runf.params) > 2 else "stats")), None)
             ok = isinstance(stored, ast.Name) and isinstance(arg, ast.Name) and stored.id == arg.id
-            ctx.instance("C12-K3", "entry stores stats=%s; pipeline is given %s" % (unparse(stored) if stored is not None else None, unparse(arg) if arg is not None else None), rb.loc(r), ok=ok)
+            ctx.instance(rule_id, "entry stores stats=%s; pipeline is given %s" % (unparse(stored) if stored is not None else None, unparse(arg) if arg is not None else None), rb.loc(r), ok=ok)
             if not ok:
-                ctx.finding("C12-K3", "Balancer.__rebalance_batch:stored-stats", rb.loc(r), "the pipeline is handed %s while the cache entry stores %s: a run that does not ask for statistics writes an entry without them, and a later run that hits this entry reports incomplete counts" % (unparse(arg) if arg is not None else "no stats dictionary", unparse(stored) if stored is not None else "something else"))
+                ctx.finding(rule_id, "Balancer.__rebalance_batch:stored-stats", rb.loc(r), "the pipeline is handed %s while the cache entry stores %s: the entry then does not hold the counts of exactly this batch (nothing when the caller did not ask for statistics, running totals when the caller's dictionary is stored), and a later run that hits this entry reports wrong counts" % (unparse(arg) if arg is not None else "no stats dictionary", unparse(stored) if stored is not None else "something else"))
 
 
 def rule_k4(ctx) -> None:
@@ -402,6 +415,131 @@ def check(ctx) -> None:
     rule_k3(ctx)
     rule_k4(ctx)
     rule_k5(ctx)
+    rule_k8(ctx)
+    rule_k9(ctx)
+
+
+def rule_k8(ctx) -> None:
+    """Input columns the pipeline does not know pass through to the output rows (`solved_by`, `confidence`, `rules`,
+    `issue` survive preprocessing unless a stage overwrites them), so two batches with equal reactions and different
+    other columns have different results.  The key has to cover the whole rows: the rows part of the hashed payload
+    is the batch itself (or a copy), not a projection to some of its columns."""
+    ctx.rule("C12-K8", "the rows part of the hashed payload is the whole batch, not a projection of its rows", 1)
+    prog = ctx.prog
+    n = 0
+    for q, f in sorted(prog.functions.items()):
+        if not q.startswith("synrbl.balancing.Balancer."):
+            continue
+        for c in calls(f):
+            if not (isinstance(c.func, ast.Attribute) and c.func.attr == "get_hash_key" and c.args):
+                continue
+            batch_ps = [p for p in f.params[1:]]
+
+            def mentions_rows(e, depth=0) -> bool:
+                for x in ast.walk(e):
+                    if isinstance(x, ast.Name) and x.id in batch_ps:
+                        return True
+                    if isinstance(x, ast.Name) and depth < 3:
+                        for _s, v, _i in assignments_to(f, x.id):
+                            if mentions_rows(v, depth + 1):
+                                return True
+                return False
+
+            def whole(e, depth=0) -> bool:
+                if isinstance(e, ast.Name) and e.id in batch_ps:
+                    return True
+                if isinstance(e, ast.Name) and depth < 3:
+                    d_ = assignments_to(f, e.id)
+                    return bool(d_) and all(i is None and whole(v, depth + 1) for _s, v, i in d_)
+                if isinstance(e, ast.Call) and unparse(e.func).split(".")[-1] in ("deepcopy", "copy", "list") and len(e.args) == 1:
+                    return whole(e.args[0], depth)
+                if isinstance(e, ast.ListComp) and len(e.generators) == 1 and not e.generators[0].ifs and whole(e.generators[0].iter, depth):
+                    el, tv = e.elt, e.generators[0].target
+                    return isinstance(tv, ast.Name) and ((isinstance(el, ast.Name) and el.id == tv.id) or (isinstance(el, ast.Call) and unparse(el.func).split(".")[-1] in ("deepcopy", "copy", "dict") and len(el.args) == 1 and isinstance(el.args[0], ast.Name) and el.args[0].id == tv.id))
+                return False
+
+            payload = c.args[0]
+            for _ in range(3):
+                if isinstance(payload, ast.Name):
+                    d_ = assignments_to(f, payload.id)
+                    if len(d_) == 1 and d_[0][2] is None:
+                        payload = d_[0][1]
+                        continue
+                break
+            parts = list(payload.values) if isinstance(payload, ast.Dict) else (list(payload.elts) if isinstance(payload, (ast.List, ast.Tuple)) else [payload])
+            rows_parts = [v for v in parts if mentions_rows(v)]
+            n += 1
+            ok = bool(rows_parts) and all(whole(v) for v in rows_parts)
+            ctx.instance("C12-K8", "%s: rows part of the key payload: %s" % (f.name, [unparse(v)[:50] for v in rows_parts] or "none"), f.loc(c), ok=ok)
+            if not ok:
+                bad = next((v for v in rows_parts if not whole(v)), None)
+                ctx.finding("C12-K8", "Balancer.%s:key-over-projection" % f.name, f.loc(c), "the cache key covers %s instead of the whole rows: input columns the pipeline hands through to the output (solved_by, confidence, rules, issue, pass-through data) differ between two batches with the same reactions, and the later one is served the earlier one's rows" % (unparse(bad)[:60] if bad is not None else "no rows at all"))
+    ctx.require(n >= 1, "no call of get_hash_key found in the Balancer")
+
+
+def rule_k9(ctx) -> None:
+    """A cache entry is JSON: what comes back is what `json.loads(json.dumps(rows))` gives.  Served rows equal computed
+    rows only if every value a stage stores in a row survives that round trip unchanged: strings, numbers, booleans,
+    None, lists, string-keyed dicts.  A tuple comes back as a list, a set does not serialise at all."""
+    from ..pipeline import Pipeline
+
+    ctx.rule("C12-K9", "values the stages store in the result rows survive a JSON round trip (no tuple / set / frozenset)", 10)
+    prog = ctx.prog
+    pl = Pipeline(ctx)
+
+    def origins(f, e, depth=0):
+        """expressions a value may come from (locals, tuple-unpacked call results followed into the callee's returns)"""
+        out = [(f, e)]
+        if depth > 4:
+            return out
+        if isinstance(e, ast.Name):
+            for _st, v, idx in assignments_to(f, e.id):
+                if idx is None:
+                    out += origins(f, v, depth + 1)
+                elif isinstance(v, (ast.Tuple, ast.List)) and idx < len(v.elts):
+                    out += origins(f, v.elts[idx], depth + 1)
+                elif isinstance(v, ast.Call):
+                    tgt = ctx.res.resolve_callee(v, f)
+                    g = prog.functions.get(tgt[1]) if tgt and tgt[0] == "func" else None
+                    if g is not None:
+                        for r in [x for x in own_nodes(g.node) if isinstance(x, ast.Return) and isinstance(x.value, ast.Tuple) and idx < len(x.value.elts)]:
+                            out += origins(g, r.value.elts[idx], depth + 1)
+        elif isinstance(e, ast.IfExp):
+            out += origins(f, e.body, depth + 1) + origins(f, e.orelse, depth + 1)
+        elif isinstance(e, ast.Call):
+            tgt = ctx.res.resolve_callee(e, f)
+            g = prog.functions.get(tgt[1]) if tgt and tgt[0] == "func" else None
+            if g is not None and g.qualname.startswith("synrbl."):
+                for r in [x for x in own_nodes(g.node) if isinstance(x, ast.Return) and x.value is not None]:
+                    out += origins(g, r.value, depth + 1)
+        return out
+
+    def unstable(e) -> Optional[str]:
+        if isinstance(e, ast.Tuple):
+            return "a tuple"
+        if isinstance(e, (ast.Set, ast.SetComp)):
+            return "a set"
+        if isinstance(e, ast.Call) and isinstance(e.func, ast.Name) and e.func.id in ("tuple", "set", "frozenset"):
+            return "a %s" % e.func.id
+        return None
+
+    n = 0
+    for st in pl.stages:
+        for s in st.stores:
+            if s.kind != "assign" or s.value is None:
+                continue
+            n += 1
+            bad = None
+            for g, e in origins(s.func, s.value):
+                u = unstable(e)
+                if u:
+                    bad = (g, e, u)
+                    break
+            ctx.instance("C12-K9", "stage %d %s: row[%s] = %s" % (st.index, st.label, "/".join(sorted(map(str, s.keytexts))) or "?", unparse(s.value)[:40]), s.where(), ok=bad is None, nontrivial=False)
+            if bad is not None:
+                g, e, u = bad
+                ctx.finding("C12-K9", "%s:row-value-not-json-stable:%s" % (s.func.qualname.split("synrbl.", 1)[-1], "/".join(sorted(map(str, s.keytexts)))), s.where(), "the value stored in the row comes from %s (%s at %s): written to the JSON cache and read back it is a list, so a batch served from the cache returns rows that differ from the rows computed without cache" % (u, unparse(e)[:40], g.loc(e)))
+    ctx.require(n >= 10, "fewer than 10 row stores found in the pipeline stages (%d)" % n)
 
 
 def rule_k5(ctx) -> None:
